@@ -67,8 +67,9 @@ ASSUMPTIONS = [
     "after a frame that is a protocol violation by P (retire_prior_to > seq, same number with another CID, same CID under "
     "another number, retiring the addressed or a never-issued ID), or once P's legal instructions leave E without any "
     "usable ID, only 'no exception escapes' is checked",
-    "packets carrying CONNECTION_CLOSE are exempt from the DCID clause; an ID E retired on its own initiative and then "
-    "uses again is only counted (the statement constrains IDs below the peer's retire_prior_to)",
+    "packets carrying CONNECTION_CLOSE are exempt from the DCID clause; an ID whose retirement E itself put on the wire in an "
+    "earlier packet (abandoned and announced) must not be addressed again, and a CONNECTION_ID_LIMIT_ERROR while the IDs P "
+    "delivered and E has not announced as retired number at most E's advertised limit is a wrong accusation",
     "retransmission of lost NEW_CONNECTION_ID frames is not demanded by the statement and only counted",
 ]
 
@@ -374,7 +375,15 @@ class Hist:
                         {"pn": v.pn, "frames": names},
                     )
                 if seq in self.retire_carriers and any(p < v.pn for p in self.retire_carriers[seq]):
-                    self.res.count("obs_dcid_retired_by_E_itself_used_again")
+                    # E announced the retirement of this ID in an earlier packet ("abandons"): P may have dropped it,
+                    # a packet addressed to it goes nowhere (RFC 9000 19.16: the ID "will no longer be used")
+                    self.res.count("dcid_used_again_after_own_retirement")
+                    self.violation(
+                        "dcid:used-again-after-own-retirement",
+                        "E addressed packet pn=%d to ID #%d although it announced the retirement of that ID in packet(s) %r"
+                        % (v.pn, seq, sorted(self.retire_carriers[seq])[:4]),
+                        {"pn": v.pn, "frames": names},
+                    )
             carrier = False
             if self.block_mode and "STREAM" in names:
                 self.data_withheld.add(v.pn)
@@ -571,8 +580,14 @@ class Hist:
                         )
                 else:
                     self.res.count("c3_within_limit_checked")
-                    if self.closed is not None and self.closed[0] == CID_LIMIT_ERROR:
-                        self.res.count("obs_limit_error_within_limit")
+                    if self.closed is not None and self.closed[0] == CID_LIMIT_ERROR and not self.closed[1]:
+                        # P counts every ID it delivered, at or above retire_prior_to, whose retirement E has not put on
+                        # the wire: E's own count cannot be larger (nothing was pending), so the accusation is wrong
+                        self.violation(
+                            "limit:CONNECTION_ID_LIMIT_ERROR-within-limit",
+                            "P made E keep %d IDs %r (<= advertised %d) and E closed with CONNECTION_ID_LIMIT_ERROR (%r)"
+                            % (len(kept), sorted(kept), self.elimit, self.closed[2]),
+                        )
         if self.closed is not None and legal and self.strict and self.closed[0] != CID_LIMIT_ERROR:
             self.res.count("obs_close_on_legal_new_connection_id:0x%x" % self.closed[0])
 
